@@ -1210,4 +1210,15 @@ def run(tier, seed, replay=None):
     run_bubbles(rep, bcases, bans)
     run_histories(rep, hists, rots, hans, hwhere)
     rep.extra["history_model_comparisons"] = rep.dist.get("history:model_compared", 0)
+    # ---- related terms in sums, spiders on small / trivial dimensions (round 7; oracle: numpy)
+    rrng = random.Random("C09-related-sums-%d" % seed)
+    for _ in range(160 if quick else 2500):
+        subseed = rrng.getrandbits(48)
+        try:
+            what = dt.related_sum_case(rep, random.Random(subseed), subseed)
+            rep.case("related-sums " + what, True)
+        except tl.Inexact:
+            rep.count("oracle.skipped:inexact")
+        except Exception as exc:
+            rep.fail("c09:related_sums:raises", dict(stream="related-sums", subseed=subseed), "%r" % (exc,))
     return rep.finish()
